@@ -16,6 +16,7 @@ import RV.Base.Proto
     catrange lo hi                       -> cats <name>*<count> …           (unicodedata.category over lo ≤ c < hi, run-length encoded)
     serdoc m fb U g U g …                   -> doc <d>n …> (document prefix table), then reset m
     sertrig fb m U g U g … / m U g …        -> doc <d>n …> (TriG: contexts separated by `/`, each with its manager), then reset both
+    serxml m P … / P …                      -> doc <p>n …> (RDF/XML: the set of predicates / the predicate of every statement written)
     minit m cc | minit m <anything else>    -> err Other | err ValueError (no manager is created)
 
   Output of every operation:  `<out>|L <p>n sorted>|P <p>n lookups>|N <n>p lookups>`
@@ -112,6 +113,10 @@ def parseOp : List String → Option Op
     pure (.parse (← bool? m) ps)
   | "parsexml" :: m :: r => do pure (.parsexml (← bool? m) (← pairs? r))
   | "serdoc" :: m :: fb :: r => do pure (.serdoc (← bool? m) (← bool? fb) (← ugs? r))
+  | "serxml" :: m :: r => do
+    match splitSlash r with
+    | [ps, ss] => pure (.serxml (← bool? m) (← ps.mapM str?) (← ss.mapM str?))
+    | _ => none
   | "sertrig" :: fb :: r => do
     let cs ← (splitSlash r).mapM (fun c => match c with
       | m :: ugs => do pure ((← bool? m), (← ugs? ugs))
